@@ -504,7 +504,7 @@ def run(tier, seed):
            "F08b": (F08B_SIG, "A exports a mutable funcref global g; B imports it and does global.set g (ref.func B.f); close B and its compiled module; drop; gc; A: table.set 0 (global.get g); call_indirect",
                     "same class (a holder that does not track the definer: globals have no involvingModuleInstances); not generated in histories, fixed witness only"),
            "MEMFREE": (MEMFREE_SIG, "experimental.WithMemoryAllocator (allocator backed by Go slices whose Free poisons the buffer with 0xdd); A defines+exports a memory, B imports it; A.store(8,111); "
-                       "close the IMPORTER B (alloc-importer) or the DEFINER A (alloc-definer); the other, live instance calls load(8)",
+                       "close the IMPORTER B (alloc-importer) or the DEFINER A (alloc-definer), or let a further importer FAIL to instantiate on a taken name (alloc-dupfail: after B was closed; alloc-dupfail-live: before B is closed); the other, live instance calls load(8)",
                        "LifetimeMem under policy user_allocator (close frees the buffer of the memory the instance is bound to) predicts OFreed at the last step; theorem C09_allocator_close_frees_shared_memory_refuted; "
                        "code: ModuleInstance.ensureResourcesClosed calls m.MemoryInstance.expBuffer.Free() although m.MemoryInstance may be imported / still imported by others"),
            "GIMM": (GIMM_SIG, "INTERPRETER: A exports an IMMUTABLE funcref global g = ref.func A.f; M imports g and nothing else from A (element item `global.get g`, private global initialised with `global.get g`, "
